@@ -740,6 +740,112 @@ fn cleaner_point(s: &Scenario, k: Option<usize>, kill_a: bool, expect_shape: Opt
     Ok((res, a.log.clone()))
 }
 
+// ---------------------------------------------------------------------------------------
+// C04 atomic-operation leg: the victim (built against the atomics drop-in) kills itself before
+// its N-th atomic operation, for every N: crash points between two shared-memory writes
+
+fn mc_exe(name: &str) -> PathBuf {
+    // <verif>/.target-seq/debug/ptx -> <verif>/.target-mc/debug/<name>
+    let mut p = std::env::current_exe().unwrap();
+    p.pop();
+    p.pop();
+    p.pop();
+    p.push(".target-mc");
+    p.push("debug");
+    p.push(name);
+    p
+}
+
+fn run_mc_victim(args: &[String], crash_at: Option<u64>) -> Result<(String, Option<i32>), String> {
+    let mut cmd = Command::new(mc_exe("crash_child_mc"));
+    cmd.args(args).stdin(Stdio::null()).stdout(Stdio::piped()).stderr(Stdio::null()).env("PTX_PRINT_PHASE", "1");
+    if let Some(n) = crash_at {
+        cmd.env("PTX_CRASH_AT", n.to_string());
+    }
+    let mut child = cmd.spawn().map_err(|e| format!("cannot start crash_child_mc: {e}"))?;
+    let t0 = Instant::now();
+    let st = loop {
+        match child.try_wait() {
+            Ok(Some(st)) => break st,
+            _ => {}
+        }
+        if t0.elapsed() > Duration::from_secs(20) {
+            let _ = child.kill();
+            let _ = child.wait();
+            return Err("victim did not finish".into());
+        }
+        std::thread::sleep(Duration::from_millis(2));
+    };
+    let mut out = String::new();
+    if let Some(mut o) = child.stdout.take() {
+        let _ = o.read_to_string(&mut out);
+    }
+    Ok((out, st.code()))
+}
+
+fn atomic_point(s: &Scenario, n: Option<u64>) -> Result<(PointResult, u64), String> {
+    let t0 = Instant::now();
+    let d = new_domain();
+    let args = scn_args(s, &d);
+    let mut res = PointResult { scenario: format!("atomic({})", s.name()), k: n.map(|n| n as usize).unwrap_or(usize::MAX), ..Default::default() };
+    let mut sv = Survivor::start(&exe("crash_survivor"), &args).map_err(|e| format!("survivor start: {e}"))?;
+    let (out, code) = match run_mc_victim(&args, n) {
+        Ok(x) => x,
+        Err(e) => {
+            let _ = sv.cmd("QUIT", Duration::from_secs(5));
+            sv.finish();
+            remove_domain(&d);
+            return Err(e);
+        }
+    };
+    let phase = out.lines().filter_map(|l| l.strip_prefix("PHASE ")).last().and_then(|p| p.trim().parse::<usize>().ok()).unwrap_or(0);
+    res.phase = PHASES.get(phase).unwrap_or(&"?").to_string();
+    res.shape = format!("atomic operation #{}", n.map(|n| n.to_string()).unwrap_or_else(|| "-".into()));
+    let total = out.lines().find_map(|l| l.strip_prefix("ATOMIC-OPS ")).and_then(|v| v.trim().parse::<u64>().ok()).unwrap_or(0);
+    if n.is_none() && (code != Some(0) || out.contains("VICTIM-ERROR")) {
+        res.problems.push(format!("victim-failed: exit {code:?}: {}", out.trim()));
+    }
+    if n.is_some() && code == Some(0) && total > 0 {
+        // the victim finished before reaching operation n: fewer operations than in the counting run
+        let _ = sv.cmd("QUIT", Duration::from_secs(5));
+        sv.finish();
+        remove_domain(&d);
+        return Err(format!("divergence: victim finished after {total} atomic operations, kill point {} not reached", n.unwrap()));
+    }
+    match sv.cmd("CHECK", Duration::from_secs(12)) {
+        Ok(l) => {
+            if let Some(j) = l.trim().strip_prefix("REPORT ") {
+                if let Ok(v) = serde_json::from_str::<Value>(j) {
+                    for p in v["problems"].as_array().cloned().unwrap_or_default() {
+                        res.problems.push(normalise(p.as_str().unwrap_or(""), &d));
+                    }
+                    for n in v["notes"].as_array().cloned().unwrap_or_default() {
+                        res.notes.push(n.as_str().unwrap_or("").to_string());
+                    }
+                } else {
+                    res.problems.push("survivor-report-unreadable".into());
+                }
+            } else {
+                res.problems.push(format!("survivor-crashed: unexpected answer {l:?}"));
+            }
+        }
+        Err(e) => res.problems.push(format!("survivor-hang-or-crash: CHECK: {e}")),
+    }
+    match sv.finish() {
+        Some(0) => {}
+        Some(c) => res.problems.push(format!("survivor-crashed: exit code {c}")),
+        None => res.problems.push("survivor-hang: did not exit".into()),
+    }
+    res.leftovers = leftovers(&d);
+    if !res.leftovers.is_empty() {
+        res.problems.push(format!("leftover: {}", res.leftovers.join(", ")));
+    }
+    remove_domain(&d);
+    res.problems.retain(|p| !p.starts_with("c07-"));
+    res.wall_ms = t0.elapsed().as_millis() as u64;
+    Ok((res, total))
+}
+
 /// `two-cleaners(pubsub-A-shared)` -> ("two-cleaners", scenario) ; plain scenario names -> ("kill", scenario)
 fn split_leg(label: &str) -> (String, Scenario) {
     let (leg, name) = match label.split_once('(') {
@@ -755,6 +861,7 @@ fn rerun(label: &str, k: Option<usize>, prop: &str) -> Result<(PointResult, Vec<
     match leg.as_str() {
         "two-cleaners" => cleaner_point(&scn, k, false, None),
         "cleaner-dies" => cleaner_point(&scn, k, true, None),
+        "atomic" => atomic_point(&scn, k.map(|k| k as u64)).map(|(r, _)| (r, Vec::new())),
         _ => run_point(&scn, k, None, prop),
     }
 }
@@ -866,6 +973,38 @@ fn main() {
             }
         }
     }
+    // 1c. C04: atomic-operation kill points
+    let mut atomic_work: Vec<(Scenario, u64)> = Vec::new();
+    if prop == "C04" && mc_exe("crash_child_mc").exists() {
+        let sc = |p: &str, r: &str| Scenario { pattern: p.to_string(), role: r.to_string(), mode: "shared".into() };
+        let list = if tier == "thorough" {
+            vec![sc("pubsub", "A"), sc("pubsub", "B"), sc("event", "A"), sc("event", "B"), sc("reqres", "A"), sc("reqres", "B"), sc("blackboard", "A"), sc("blackboard", "B")]
+        } else if only.as_ref().map(|o| o.starts_with("atomic")).unwrap_or(false) {
+            vec![sc("pubsub", "A")]
+        } else {
+            // the every-change tier leaves the atomic-operation kill points to the thorough tier
+            vec![]
+        };
+        for s in list {
+            if only.as_ref().map(|o| !format!("atomic-{}", s.name()).contains(o.as_str())).unwrap_or(false) {
+                continue;
+            }
+            match atomic_point(&s, None) {
+                Ok((r, total)) => {
+                    rows.push(json!({"scenario": format!("atomic({})", s.name()), "atomic_operations": total, "baseline_problems": r.problems}));
+                    if !r.problems.is_empty() {
+                        machinery.push(format!("baseline of the atomic leg ({}) is not clean: {:?}", s.name(), r.problems));
+                    }
+                    for n in 0..total {
+                        atomic_work.push((s.clone(), n));
+                    }
+                    results.push(r);
+                }
+                Err(e) => machinery.push(format!("counting run of the atomic leg failed: {e}")),
+            }
+        }
+    }
+    let atomic_work = Arc::new(atomic_work);
     let cleaner_work = Arc::new(cleaner_work);
     // 2. every kill point
     let next = Arc::new(AtomicUsize::new(0));
@@ -874,18 +1013,21 @@ fn main() {
     let deadline = Instant::now() + Duration::from_secs(if tier == "thorough" { 1500 } else { 50 });
     let mut hs = Vec::new();
     for _ in 0..jobs {
-        let (next, work, collected, prop, cleaner_work) = (next.clone(), work.clone(), collected.clone(), prop.clone(), cleaner_work.clone());
+        let (next, work, collected, prop, cleaner_work, atomic_work) = (next.clone(), work.clone(), collected.clone(), prop.clone(), cleaner_work.clone(), atomic_work.clone());
         hs.push(std::thread::spawn(move || loop {
             let i = next.fetch_add(1, Ordering::SeqCst);
-            if i >= work.len() + cleaner_work.len() || Instant::now() > deadline {
+            if i >= work.len() + cleaner_work.len() + atomic_work.len() || Instant::now() > deadline {
                 break;
             }
             let r = if i < work.len() {
                 let (s, k, shape) = &work[i];
                 run_point(s, Some(*k), Some(shape), &prop).map(|(r, _)| r)
-            } else {
+            } else if i < work.len() + cleaner_work.len() {
                 let (s, k, shape, kill) = &cleaner_work[i - work.len()];
                 cleaner_point(s, Some(*k), *kill, Some(shape)).map(|(r, _)| r)
+            } else {
+                let (s, n) = &atomic_work[i - work.len() - cleaner_work.len()];
+                atomic_point(s, Some(*n)).map(|(r, _)| r)
             };
             collected.lock().unwrap().push(r);
         }));
@@ -894,7 +1036,7 @@ fn main() {
         let _ = h.join();
     }
     let done = collected.lock().unwrap().len();
-    let complete = done == work.len() + cleaner_work.len();
+    let complete = done == work.len() + cleaner_work.len() + atomic_work.len();
     for r in collected.lock().unwrap().drain(..) {
         match r {
             Ok(r) => results.push(r),
@@ -967,7 +1109,7 @@ fn main() {
         "distinct_nontrivial": shapes.len(),
         "scenarios": rows,
         "exhaustive": complete && machinery.is_empty(),
-        "kill_points_planned": work.len() + scns.len(), "cleaner_points_planned": cleaner_work.len(),
+        "kill_points_planned": work.len() + scns.len(), "cleaner_points_planned": cleaner_work.len(), "atomic_points_planned": atomic_work.len(),
         "samples": samples,
         "violations": violations,
         "machinery_errors": machinery,
